@@ -8,7 +8,8 @@ An explicit, decidable predicate.  Every conjunct is forced by the round-trip pr
 * value ranges of the C types (64-bit integers, 32-bit label and string numbers, `uint8_t` scale,
   names are C strings, `long double` is 80 bits);
 * an instruction with a fixed operand count carries exactly that many operands;
-* a function does not end with a label (`endfunc should have no labels` in the reader);
+* a function does not end with a label unless `cfg.endfuncLabels` (`endfunc should have no labels`
+  in today's reader);
 * items referred to by `ref` operands / `ref` / `expr` data are declared earlier in the module;
 * and the three reader facts read off the source (`Cfg`): if `globalDoubleRead` the function has
   no `global` variables (#30), insn codes are below `codeLimit` (#31), data of type `p` only if
@@ -66,7 +67,7 @@ def pendingLabs : List Nat → List Insn → List Nat
   ∧ (∀ v : Nat × Name × Name, v ∈ f.globals → v.1 ≤ 17 ∧ NameOK v.2.1 ∧ NameOK v.2.2)
   ∧ (cfg.globalDoubleRead = true → f.globals = [])
   ∧ (∀ i : Insn, i ∈ f.insns → InsnOK cfg i)
-  ∧ pendingLabs [] f.insns = []
+  ∧ (cfg.endfuncLabels = false → pendingLabs [] f.insns = [])
 
 @[reducible] def OptNameOK : Option Name → Prop
   | none => True
@@ -134,5 +135,6 @@ instance (cfg : Cfg) (ms : List Module) : Decidable (WF cfg ms) :=
 /-- the reader facts a correct reader would have: nothing of the vocabulary is excluded -/
 def Cfg.sound (cfg : Cfg) : Prop :=
   cfg.globalDoubleRead = false ∧ cfg.dataPtr = true ∧ cfg.nops.length ≤ cfg.codeLimit
+  ∧ cfg.endfuncLabels = true
 
 end BinIO
